@@ -62,5 +62,6 @@ V_OBJ = [
     [1, "a"], [1, "a", 2], [1, "a", "b"], [1], ["a", 1], [[1.5, 2], []], [1, True], [1, True, None], [3, 1], [1, 1],
     [{"a": 1, "b": "s"}], [{"inner": {"w": "x"}}],
     [1, 2.5], [{"class": 1, "a b": "x"}], [[1, 2], [3.5]], {"a": 1, "": 2, "sx": "v"}, {"zz": 3, "": 1},
+    {"cfg": {}}, {"cfg": {"x": 1}, "other": {}}, {"tag": "t"}, {"legacy": 1},
     {"num": 1}, {"num": 2, "base": {"a": 5}, "sub": {"class": 1}}, {"num": 1.5, "sub": {}}, {"n": 3, "o": {"x y": 2}}, {"n": 3, "o": {}}, {"n": -1},
 ]
